@@ -140,8 +140,9 @@ def run_one(s):
     tr["pres"].append(rec)
     # history in the process: unrelated models (other hyper-parameters of the same building blocks) are constructed and evaluated,
     # then the model under observation sees the first presentation again: same rows, same outputs
-    if s["pres"]:
-        pr = s["pres"][0]
+    nodrop = [p for p in s["pres"] if not p["drop"]]       # (the first presentation of the list may be one with a dropped variable)
+    if nodrop:
+        pr = nodrop[0]
         rec = {"order": pr["order"], "rows": pr["rows"], "axes": pr["axes"], "drop": pr["drop"], "exc": "", "obs": [], "parts_ok": True, "outsp": []}
         if not pr["drop"]:
             def after_others():
